@@ -1,0 +1,53 @@
+package extension
+
+import "sync"
+
+// asyncDispatcher runs listener invocations asynchronously with respect to the emitter, while
+// keeping the invocations of each named listener sequential and in the order they were emitted.
+// One dispatcher is shared by the after-event brokers of a Host, so a listener registered under
+// the same name for several events observes them in the order they happened.
+type asyncDispatcher struct {
+	mu    sync.Mutex
+	lanes map[string]*dispatchLane
+}
+
+type dispatchLane struct {
+	queue   []func()
+	running bool
+}
+
+func newAsyncDispatcher() *asyncDispatcher {
+	return &asyncDispatcher{lanes: make(map[string]*dispatchLane)}
+}
+
+// enqueue schedules fn to run after everything previously enqueued for the same listener name.
+func (d *asyncDispatcher) enqueue(name string, fn func()) {
+	d.mu.Lock()
+	lane := d.lanes[name]
+	if lane == nil {
+		lane = &dispatchLane{}
+		d.lanes[name] = lane
+	}
+	lane.queue = append(lane.queue, fn)
+	if !lane.running {
+		lane.running = true
+		go d.drain(lane)
+	}
+	d.mu.Unlock()
+}
+
+// drain runs the queued invocations of one lane until it is empty.
+func (d *asyncDispatcher) drain(lane *dispatchLane) {
+	for {
+		d.mu.Lock()
+		if len(lane.queue) == 0 {
+			lane.running = false
+			d.mu.Unlock()
+			return
+		}
+		fn := lane.queue[0]
+		lane.queue = lane.queue[1:]
+		d.mu.Unlock()
+		fn()
+	}
+}
